@@ -288,10 +288,18 @@ def _state_W(res, rel, T, P=None, count=True):
         J.value("units-mode-after-err_mult", v, unit, v0, TOL, "units=default_units after calls with err_mult" + lab)
         v, _, _ = _call(res, lambda: f(T, warn=False))
         J.value("plain-after-err_mult", v, None, v0, 0.0, "plain after calls with err_mult" + lab)
+    # the same calls once more in this process (a session evaluates one temperature many times): same value, same warning behaviour
+    v, w, _ = _call(res, lambda: f(T, *pa))
+    J.value("plain-again", v, None, v0, 0.0, "plain, called again" + lab)
+    J.warning("plain-again", w, outside, "plain, called again" + lab)
+    v, w, _ = _call(res, lambda: f(T * u.K, *pu, units=u))
+    J.value("units-mode-again", v, unit, v0, TOL, "units=default_units, T in K, called again" + lab)
+    if not _is_exc(v):
+        J.warning("units-mode-again", w, outside, "units=default_units, T in K, called again" + lab)
     if count:
         res.states += 1
         res.nontrivial += 1
-        res.transitions += 5 + (2 if P is not None else 0)
+        res.transitions += 7 + (2 if P is not None else 0)
         res.symbols["rel:" + rel] += 1
         res.outcomes["%s|point-%s-%s" % (rel, "outside" if outside else "inside", "ok" if J.ok else "VIOLATED")] += 1
     return v0
